@@ -97,7 +97,8 @@ def run(prop, tier, seed, ctx):
     cases = []
     for kind in ["busy", "printer", "blocked", "swallower", "swallower_loud", "finisher", "raiser_late", "catcher",
                  "catcher_loud", "blocked_tn", "busy_tn", "printer_tn", "catcher_tn", "importer", "importer_tn", "unwinder", "unwinder_tn",
-                 "importer_nat", "importer_tn_nat", "busy_nat", "printer_tn_nat"]:
+                 "importer_nat", "importer_tn_nat", "busy_nat", "printer_tn_nat",
+                 "blocked_nat", "blocked_cov", "busy_cov", "blocked_tn_cov"]:
         for i in range(n):
             allowed = [0.05, 0.08, 0.12][(i + seed) % 3]
             fin = [20000, 300000, 1500000, 4000000][(i + seed) % 4]
